@@ -122,6 +122,16 @@ def run(repo, rep, tier):
                 r1.sites += 1
                 ok = f.cls is not None and f.cls.name == 'MainProvider' and \
                     kind in allowed.get(f.name, ())
+                if not ok and f.cls is not None and \
+                        f.cls.name == 'MainProvider' and \
+                        f.name.startswith('_'):
+                    # a private helper: the write belongs to its callers
+                    callers = [g for g in mp.methods.values() if any(
+                        isinstance(c, ast.Call) and
+                        dotted(c.func) == 'self.' + f.name
+                        for c in walk_no_nested(g.node))]
+                    ok = bool(callers) and all(
+                        kind in allowed.get(g.name, ()) for g in callers)
                 r1.ob(ok, '%s:%s' % (f.qualname, kind),
                       {'writer': f.qualname, 'kind': kind,
                        'stmt': norm(node, 80)})
@@ -207,7 +217,8 @@ def run(repo, rep, tier):
                         'exactly when eos is TRUE')
         if kind == 'delete':
             # the context key: the subscript used for the table lookup
-            keys = {norm(x.slice) for x in ast.walk(func.node)
+            keys = {norm(x.slice) for p_, _, _ in rows
+                    for st_ in p_.effects for x in ast.walk(st_)
                     if isinstance(x, ast.Subscript) and
                     _is_ctx_table(x.value) and isinstance(x.ctx, ast.Load)}
             ok = len(keys) == 1 and all(norm(v.elts[2]) in keys
@@ -343,44 +354,58 @@ def run(repo, rep, tier):
                     'CIM_ERR_INVALID_ENUMERATION_CONTEXT')
 
     # ---------------- R2 -------------------------------------------------
+    # Refuse before consuming, judged per return path (helpers inlined): each
+    # statement that consumes objects or deletes the context must come after
+    # (a) a lookup of the context table, (b) the namespace validation and
+    # (c) the established fact that the pull kind matches.
     r2.sites += 1
     r2.functions.add(pul.fq)
-    cfg = CFG(pul.node)
-    muts = []
-    for n in cfg.stmts():
-        if isinstance(n, ast.Delete):
-            muts.append(n)
-    lookup = [n for n in cfg.stmts() if isinstance(n, ast.Try) and
-              any(isinstance(h.type, ast.Name) and h.type.id == 'KeyError'
-                  and always_exits(h.body) for h in n.handlers) and
-              any(isinstance(x, ast.Subscript) and _is_ctx_table(x.value)
-                  for s in n.body for x in ast.walk(s))]
-    nsval = [n for n in cfg.stmts() if isinstance(n, ast.Expr) and
-             isinstance(n.value, ast.Call) and
-             dotted(n.value.func) == 'self.validate_namespace']
-    ptype = [n for n in cfg.stmts() if isinstance(n, ast.If) and
-             always_exits(n.body) and 'pull_type' in norm(n.test) and
-             'req_type' in norm(n.test) and
-             isinstance(n.test, ast.Compare) and
-             isinstance(n.test.ops[0], ast.NotEq)]
-    for what, guards in (('context lookup (KeyError -> '
-                          'INVALID_ENUMERATION_CONTEXT)', lookup),
-                         ('namespace validation', nsval),
-                         ('pull-type check', ptype)):
-        for mu in muts:
-            ok = any(cfg.dominates(g, mu) for g in guards)
-            r2.ob(ok, '_pull_response:%s:%s' % (what[:12], norm(mu, 40)),
-                  {'mutation': norm(mu, 60), 'guard': what,
-                   'dominated': ok})
+    ppaths = return_paths(pul)
+    if ppaths is None:
+        raise AnalysisError('_pull_response: too many paths')
+    seen_mut = {}
+    for p_ in ppaths:
+        look = [i for i, st in enumerate(p_.effects) if any(
+            isinstance(x, ast.Subscript) and _is_ctx_table(x.value) and
+            isinstance(x.ctx, ast.Load) for x in ast.walk(st))]
+        nsv = [i for i, st in enumerate(p_.effects) if any(
+            isinstance(c, ast.Call) and
+            (dotted(c.func) or '').endswith('validate_namespace')
+            for c in ast.walk(st))]
+        ptf = []
+        for (e, pol), pos in zip(p_.facts, p_.fact_pos):
+            if isinstance(e, ast.Compare) and len(e.ops) == 1 and \
+                    'pull_type' in norm(p_.resolve(e), 300):
+                if (isinstance(e.ops[0], ast.NotEq) and not pol) or \
+                        (isinstance(e.ops[0], ast.Eq) and pol):
+                    ptf.append(pos)
+        for i, st in enumerate(p_.effects):
+            if not isinstance(st, ast.Delete):
+                continue
+            key = norm(st, 60)
+            res = seen_mut.setdefault(key, {'lookup': True, 'ns': True,
+                                            'ptype': True, 'node': st})
+            if not any(x < i for x in look):
+                res['lookup'] = False
+            if not any(x < i for x in nsv):
+                res['ns'] = False
+            if not any(x <= i for x in ptf):
+                res['ptype'] = False
+    if not seen_mut:
+        raise AnalysisError('_pull_response: no consuming statement found')
+    for key, res in seen_mut.items():
+        for what, flag in (('context lookup (KeyError -> '
+                            'INVALID_ENUMERATION_CONTEXT)', 'lookup'),
+                           ('namespace validation', 'ns'),
+                           ('pull-type check', 'ptype')):
+            ok = res[flag]
+            r2.ob(ok, '_pull_response:%s:%s' % (what[:12], key[:40]),
+                  {'mutation': key, 'guard': what, 'precedes': ok})
             if not ok:
-                rep.finding(r2, pul.qualname, norm(mu, 60),
-                            'unguarded:' + what.split(' ')[0], MAIN,
-                            mu.lineno, 'objects are consumed / the context '
-                            'is deleted on a path that has not passed the '
-                            + what)
-    if not muts:
-        raise AnalysisError('_pull_response: no mutation found')
-
+                rep.finding(r2, pul.qualname, key, 'unguarded:' +
+                            what.split(' ')[0], MAIN, res['node'].lineno,
+                            'objects are consumed / the context is deleted '
+                            'on a path that has not passed the ' + what)
     # ---------------- R4 -------------------------------------------------
     for func in (opn, pul, mp.methods.get('_validate_open_params')):
         if func is None:
